@@ -1,12 +1,13 @@
 #!/bin/bash
 # ./runall.sh [quick|thorough] [ids...]  — runs every registered check, one summary line each
+D="$(cd "$(dirname "${BASH_SOURCE[0]}")" && pwd)"
 tier="${1:-quick}"; shift
 ids="$@"
-[ -z "$ids" ] && ids=$(python3 -c "import json;print(' '.join(c['property_id'] for c in json.load(open('/verif/MANIFEST.json'))['checks']))")
+[ -z "$ids" ] && ids=$(python3 -c "import json;print(' '.join(c['property_id'] for c in json.load(open('$D/MANIFEST.json'))['checks']))")
 rc=0
 for id in $ids; do
-  out=$(/verif/run.sh $id $tier 2>&1); code=$?
-  echo "$id exit=$code $(echo "$out" | grep -c '^VIOLATION') violation-lines; $(echo "$out" | grep -c '^KNOWN-FINDING') known; $(echo "$out" | head -1)"
+  t0=$(date +%s); out=$("$D/run.sh" $id $tier 2>&1); code=$?; t1=$(date +%s)
+  echo "$id exit=$code wall=$((t1-t0))s $(echo "$out" | grep -c '^VIOLATION') violation-lines; $(echo "$out" | grep -c '^KNOWN-FINDING') known; $(echo "$out" | head -1)"
   [ $code -ne 0 ] && { rc=1; echo "$out" | grep -A3 '^VIOLATION\|^INCONCLUSIVE\|BUILD-FAILED' | head -20; }
 done
 exit $rc
